@@ -83,7 +83,8 @@ pub fn gen_url(r: &mut Rng) -> String {
 }
 
 fn gen_rule(r: &mut Rng) -> String {
-    let name = r.pick(&["utm", "utm_source", "a", "b", "fbclid", "k", "Utm", "a-b", "k_1"]);
+    // (names are ASCII letters, digits, `_`, `-`; anything else makes the rule an error, digits of other scripts included)
+    let name = r.pick(&["utm", "utm_source", "a", "b", "fbclid", "k", "Utm", "a-b", "k_1", "utm", "a", "k", "id\u{ff12}", "k\u{663}", "\u{e9}t\u{e9}", "a.b", "a b", "k=1"]);
     let pat = match r.below(7) {
         0 | 1 => "*".to_string(),
         2 => format!("||{}^", r.pick(HOSTS)),
